@@ -20,6 +20,9 @@ type CGCall struct {
 	CallerAddr uint64
 	CallerLine int64
 	Relative   bool // the target address was given relative to the previous position
+	// AltAddr: the target address when a relative form is read against the cost line of the function printed
+	// BEFORE the calling one (what a writer gets that forgets the caller's own cost line)
+	AltAddr uint64
 }
 
 type CGRecord struct {
@@ -99,6 +102,7 @@ func ParseCallgrind(src string) (*CGFile, error) {
 	var curOb, curFile, curFn string
 	var callFile, callFn string
 	var prevAddr, prevLine int64
+	var nodeAddr, prevNodeAddr int64 // address of the current / the previous function's own cost line
 	var pending *CGCall
 	var rec *CGRecord
 	sawPositions := false
@@ -151,7 +155,8 @@ func ParseCallgrind(src string) (*CGFile, error) {
 				if err1 != nil || err2 != nil || err3 != nil {
 					return nil, bad("bad calls line")
 				}
-				pending = &CGCall{File: callFile, Fn: callFn, Addr: uint64(a), Line: l, Count: cnt, Relative: t[1] == "*" || strings.HasPrefix(t[1], "+") || strings.HasPrefix(t[1], "-")}
+				alt, _ := cgSub(t[1], prevNodeAddr, true)
+				pending = &CGCall{File: callFile, Fn: callFn, Addr: uint64(a), Line: l, Count: cnt, Relative: t[1] == "*" || strings.HasPrefix(t[1], "+") || strings.HasPrefix(t[1], "-"), AltAddr: uint64(alt)}
 			default:
 				return nil, bad("unknown key %q", key)
 			}
@@ -191,6 +196,7 @@ func ParseCallgrind(src string) (*CGFile, error) {
 			}
 			cur.Addr, cur.Line, cur.Cost = uint64(a), l, cost
 			rec = cur
+			prevNodeAddr, nodeAddr = nodeAddr, a
 		}
 		prevAddr, prevLine = a, l
 	}
